@@ -41,6 +41,9 @@ FIXED = [
  ("fix: modelgen failed or produced uncompilable code", "C20", "TestFixedC20EnumNames", "integer/real/boolean enums made the generator fail or emit aliases to OVSDB type names; enum strings were used verbatim in identifiers and unescaped in literals"),
  ("fix: ValidateCondition panics on enum columns", "C08", "TestFixedC08APIEnumAndModelOrder", "WhereAll/WhereAny (mapper.NewCondition) with a condition on an enum column panicked with 'Unsupported Type'"),
  ("fix: RowsByModels looks a model up by its indexes", "C08", "TestFixedC08APIEnumAndModelOrder", "Where(models...): a model whose uuid was already found through an earlier model fell through to the index search, so the selection depended on the order of the models"),
+ ("fix: modelgen left separators in identifiers", "C20", "TestFixedC20EnumSeparators", "camelCase used the split words only when there were several: enum values such as \"~tilde\", \"$var\", \"up-\" gave constant names that are not Go identifiers"),
+ ("fix: modelgen embedded schemas containing a back quote", "C20", "TestFixedC20EnumSeparators", "a back quote in the schema (enum value) terminated the raw string literal holding the schema in the generated model.go"),
+ ("fix: data race between TableCache.Purge", "C18", "TestFixedC18PurgeAccessorRace race=1", "TableCache.DatabaseModel()/Mapper() read the database model without the cache mutex while Purge (reconnect) replaces it: data race between WhereCache/Where*/Create and a reconnect (found by the thorough tier of TestC18Concurrent)"),
  ("fix: commit, comment and assert", "C19", "TestFixedC19DegenerateOps", "commit/comment/assert operations carrying a table but not their member dereferenced nil"),
 ]
 log = subprocess.run(["git","-C","/repo","log","--format=%h %s"],capture_output=True,text=True).stdout.splitlines()
